@@ -6,6 +6,7 @@
    local part of the configured JID and the secret. *)
 From Coq Require Import List ZArith NArith Bool.
 From XV Require Import Lib.Sx Model.Session Model.Sasl Corr.RunC14 Corr.RunSession.
+From XV Require Model.ClientConfig.
 Import ListNotations.
 Open Scope Z_scope.
 
@@ -21,10 +22,23 @@ Definition run_sess_payloads (y : sx) (user secret : str) : sx :=
   | None => decode_error
   end.
 
+(* (3 jid-as-units configured-domain secret): what NewClient makes of the configured JID
+   string (Model/ClientConfig.v): the bytes of the string as the model reads them back, then
+   (0) when NewClient refuses, or (1 payload domain resource): the character data of the
+   <auth/>, the `to` of the stream header, the resource asked for in <bind/>. *)
+Definition run_config (jid dom secret : str) : sx :=
+  SL (SS (ClientConfig.bytes_of jid) ::
+      match ClientConfig.new_client jid dom secret with
+      | None => [SZ 0]
+      | Some p => [SZ 1; SS (plain_payload (ClientConfig.p_local p) secret);
+                   SS (ClientConfig.p_domain p); SS (ClientConfig.p_resource p)]
+      end).
+
 Definition run_C14b (x : sx) : sx :=
   match x with
   | SL [SZ 0; y] => run_C14 y
   | SL [SZ 1; y] => run_session y
   | SL [SZ 2; y; SS user; SS secret] => run_sess_payloads y user secret
+  | SL [SZ 3; SS jid; SS dom; SS secret] => run_config jid dom secret
   | _ => decode_error
   end.
